@@ -34,7 +34,7 @@ LEVEL = "exploration"
 NATIVE = ["mdtraj.formats.xtc", "mdtraj.formats.trr", "mdtraj.formats.dcd", "mdtraj.formats.dtr"]
 RULE = ("case = (format, atom count class, atom_indices?, one or two handles, in-domain op sequence); quick: seeded random "
         "sequences of length 3..10; thorough: every in-domain sequence of length <= 5 over 11 ops per format plus random "
-        "two-handle interleavings; round-5 streams: the same histories on foreign / alias / option file classes (see module docstring), histories with seek(offset, whence=2), every array of the read() result compared; non-trivial = at least one model comparison was decided; distinct = distinct descriptors")
+        "two-handle interleavings; round-5 streams: the same histories on foreign / alias / option file classes (see module docstring), histories with seek(offset, whence=2), every array of the read() result compared; round-10 stream: read(k, stride) inserted as an unjudged disturbance, position re-based by an absolute seek, everything after it judged; non-trivial = at least one model comparison was decided; distinct = distinct descriptors")
 WORKERS = {"quick": 8, "thorough": 16}
 BUDGET = {"quick": 60, "thorough": 1200}
 EXHAUSTIVE = {"quick": False, "thorough": True}
@@ -58,7 +58,7 @@ UNIT = {"h5": 1.0, "hdf5": 1.0, "xtc": 1.0, "trr": 1.0}   # others: angstrom (10
 ALPHABET = [("read", 1), ("read", 2), ("read", 3), ("readall", None), ("seek", 0), ("seek", 2), ("seek", 5),
             ("rseek", 1), ("rseek", -1), ("tell", None), ("len", None)]
 ALPHABET_E = ALPHABET + [("eseek", -1), ("eseek", -4)]   # + seek(offset, whence=2): used by the round-5 streams only
-FLOORS = {"quick": {"read.frames": 2500, "tell": 2000, "len": 600, "final.remainder": 1000, "read.fields": 20000}}
+FLOORS = {"quick": {"read.frames": 2500, "tell": 2000, "len": 600, "final.remainder": 1000, "read.fields": 20000, "strided-read.disturbances": 1000}}
 ASSUMPTIONS = ["a full read() through a fresh handle is the reference for frame content (content itself is C01's subject); "
                "it is additionally checked to identify frames 0..n-1 in order",
                "out-of-range reads and seeks are outside the property's domain and are not generated"]
@@ -212,6 +212,42 @@ def _gen_cases(tier, seed):
             c["aiv"] = int(rng.integers(1, 4))   # which atoms, and in which container (see run_case)
         yield c
         i += 1
+    # ---- round-10 stream: a strided read(k, stride=s) as a DISTURBANCE between judged operations.  Its own result is C02's subject
+    # and is not judged here; the handle's position is re-based by an absolute seek straight after it, and everything that follows
+    # must still behave as a cursor (whatever the reader remembered about frames it skipped must not mislead later seeks).
+    for j in range(4000 if tier == "quick" else 16000):
+        rng = common.rng_for("C18stride", seed, j)
+        fmt = FMTS[j % len(FMTS)]
+        n = N_LONG if j % 25 == 24 else N_FRAMES
+        two = bool(rng.random() < 0.3)
+        L = int(rng.integers(4, 11))
+        pos = [0, 0]
+        ops = []
+        for _ in range(L):
+            h = int(rng.integers(0, 2)) if two else 0
+            if rng.random() < 0.3:
+                k, st = int(rng.integers(1, 4)), int(rng.integers(2, 4))
+                if pos[h] + (k - 1) * st + 1 <= n:
+                    a = int(rng.integers(0, n))
+                    ops.append([h, "sread", [k, st]])
+                    ops.append([h, "seek", a])
+                    pos[h] = a
+                    continue
+            cand = [(o, a) for o, a in ALPHABET if in_domain(o, a, pos[h], n)]
+            o, a = cand[int(rng.integers(len(cand)))]
+            if o == "read":
+                a = int(rng.integers(1, n - pos[h] + 1))
+            elif o == "seek":
+                a = int(rng.integers(0, n))
+            elif o == "rseek":
+                a = int(rng.integers(-pos[h], n - pos[h]))
+            ops.append([h, o, a])
+            pos[h] = apply_model(o, a, pos[h], n)
+        # TRR: read(stride > 1, atom_indices = subset) overruns a heap block (known finding C02/asan:heap-buffer-overflow:WRITE:do_htrn,
+        # trr.pyx): that call would corrupt the worker, and it is C02's subject, so the disturbance is not combined with atom_indices there
+        ai = bool(rng.random() < 0.25) and not fmt.startswith("trr")
+        yield dict(i=i, fmt=fmt, ai=ai, ops=ops, **({"n": n} if n != N_FRAMES else {}))
+        i += 1
 
 
 def _file_for(fmt, N_FRAMES=N_FRAMES):
@@ -337,6 +373,7 @@ def run_case(case, ctx):
     # position; every later discrepancy on that handle (until an absolute seek re-bases the position) is the same
     # mechanism, so it gets one key.  Discrepancies on an untainted handle keep their specific keys.
     eof = [False] * nh
+    desync = [False] * nh   # after a strided read the model does not follow the position until an absolute seek re-bases it
 
     def K(h, specific):
         # (same reader for the GROMACS-written TRR classes: one mechanism, one key)
@@ -352,6 +389,19 @@ def run_case(case, ctx):
                 return
         for h, op, arg in case["ops"]:
             fh = handles[h]
+            if desync[h] and op not in ("seek", "eseek"):
+                ctx.skip("domain", "position not re-based after a strided read")
+                continue
+            if op == "sread":
+                try:
+                    fh.read(arg[0], stride=arg[1], atom_indices=idx) if idx is not None else fh.read(arg[0], stride=arg[1])
+                    ctx.observe("op", "read(n, stride) [disturbance, not judged]")
+                    ctx.ok("strided-read.disturbances")
+                except Exception as e:  # noqa  (strided reads are C02's subject; here: stop following this history)
+                    ctx.skip("domain", f"{fmt}: read(n, stride) raised {type(e).__name__}")
+                    break
+                desync[h] = True
+                continue
             if not in_domain(op, arg, pos[h], n):
                 ctx.skip("domain", "operation out of range for this file length")
                 continue
@@ -459,11 +509,14 @@ def run_case(case, ctx):
             pos[h] = apply_model(op, arg, pos[h], n)
             if op in ("seek", "eseek"):
                 eof[h] = False  # an absolute (or end-relative) seek re-bases the position
+                desync[h] = False
             if op not in ("tell",):
                 last[h] = name
         else:
             # final observers make every history observable: position via tell (if offered) and the remainder
             for h, fh in enumerate(handles):
+                if desync[h]:
+                    continue
                 if off.get("tell") is not False:
                     try:
                         tl = fh.tell()
